@@ -35,7 +35,8 @@ Accepted(e) ==
               \* the independent big-step semantics on the elaborated program (ground results of short runs)
               sem == IF e.end.k \in {"lit", "true", "false"} /\ e.nsteps <= 300 /\ ~HasHole(e.elab) THEN Ev(e.elab, <<>>, <<>>, 6000) ELSE [r |-> "skip"]
           IN
-          /\ IF i.r = "ok" /\ (iv.r = "ill" \/ (iv.r = "ok" /\ ConvH(iv.ty, e.ty, <<>>, FUEL).r = "no"))
+          \* "v itself has type T": judged on the real value and the real reported type, whatever the elaboration looks like
+          /\ IF iv.r = "ill" \/ (iv.r = "ok" /\ ConvH(iv.ty, e.ty, <<>>, FUEL).r = "no")
              THEN Bad(<<"C04", "the value does not have the reported type", "holes_opened", e.holes_opened>>) ELSE TRUE
           /\ IF e.whnf.k # "none" /\ ~Ident(e.whnf, e.end) THEN Bad(<<"C06", "weak-head normalising the program (as the checker does) does not give the literal that running it gives">>) ELSE TRUE
           /\ IF sem.r = "ok" /\ ~( (e.end.k = "lit" /\ sem.v.v = "lit" /\ sem.v.n = e.end.v) \/ (e.end.k = "true" /\ sem.v.v = "bool" /\ sem.v.b) \/ (e.end.k = "false" /\ sem.v.v = "bool" /\ ~sem.v.b) )
